@@ -572,7 +572,8 @@ def dict_variant(draw, desc):
 
 
 NEAR_MISS_EDITS = ('list_tuple', 'arity_plus', 'arity_minus', 'key_rename', 'key_add', 'key_remove',
-                   'nt_swap', 'meta_change', 'node_to_leaf', 'none_leaf', 'kind_swap', 'dict_to_cm')
+                   'nt_swap', 'meta_change', 'node_to_leaf', 'none_leaf', 'kind_swap', 'dict_to_cm',
+                   'tuple_nt', 'tuple_ss', 'tuple_sub')
 
 
 def near_miss(draw, desc):
@@ -610,6 +611,22 @@ def near_miss(draw, desc):
                 if items and e == 'key_rename':
                     items[draw(st.integers(0, len(items) - 1))][0] = fresh
                     return root[0], e
+            # same arity, same children, but a tuple *subclass* (namedtuple / struct sequence / leaf subclass)
+            if e == 'tuple_nt' and t == 'tuple' and len(n[1]) <= 2:
+                c[i] = ['nt', ['NT0', 'NT1', 'NT2'][len(n[1])], n[1]]
+                return root[0], e
+            if e == 'tuple_nt' and t == 'nt':
+                c[i] = ['tuple', n[2]]
+                return root[0], e
+            if e == 'tuple_ss' and t == 'tuple' and len(n[1]) == 2:
+                c[i] = ['ss', 'terminal_size', n[1]]
+                return root[0], e
+            if e == 'tuple_ss' and t == 'ss':
+                c[i] = ['tuple', n[2]]
+                return root[0], e
+            if e == 'tuple_sub' and t == 'tuple' and len(n[1]) == 2 and j != 0:
+                c[i] = ['sub', 'TupleSub']
+                return root[0], e
             if e == 'nt_swap' and t == 'nt' and n[1] in ('NT2', 'NTSub'):
                 n[1] = 'NTSub' if n[1] == 'NT2' else 'NT2'
                 return root[0], e
